@@ -160,6 +160,7 @@ structure Inv (s : State) : Prop where
       (s.stream i).destroys = 1 ∧ (s.stream i).recv ≤ 1 ∧ (s.stream i).resets.length ≤ 1 ∧
       ((s.stream i).recv = 1 → (s.stream i).resets = [])
   resetDirty : ∀ i, i < s.nStreams → (s.stream i).resets ≠ [] → (s.client (s.stream i).conn).dirty = true
+  deadWhy : ∀ i, i < s.nStreams → (s.stream i).live = false → (s.stream i).recv = 1 ∨ (s.stream i).resets ≠ []
 
 theorem resIncrease_eq (m : Nat) (cur : Int) : resIncrease m cur = if m = 0 then cur else cur + 1 := by
   unfold resIncrease; by_cases h : m = 0 <;> simp [h]
@@ -168,7 +169,7 @@ theorem resDecrease_eq (m : Nat) (cur : Int) : resDecrease m cur = if m = 0 then
 
 theorem inv_init (k : Kind) (mc mr : Nat) : Inv (init k mc mr) := by
   refine { books := rfl, idleNodup := List.nodup_nil, idleOk := ?_, excl := ?_, liveOk := ?_, connOk := ?_,
-           flagTruth := ?_, noLeak := ?_, dirtyClosed := ?_, req := ?_, liveFresh := ?_, deadOnce := ?_, resetDirty := ?_ }
+           flagTruth := ?_, noLeak := ?_, dirtyClosed := ?_, req := ?_, liveFresh := ?_, deadOnce := ?_, resetDirty := ?_, deadWhy := ?_ }
   all_goals simp [init, State.liveCount, countLive]
 
 theorem live_new (c : Nat) : ({ conn := c } : Stream).live = true := by simp [Stream.live]
@@ -187,9 +188,9 @@ def withNewClient (s : State) : State :=
 /-- T1: a fresh client is created and leased -/
 theorem inv_lease_new (s : State) (h : Inv s) : Inv (lease (withNewClient s) s.nClients) := by
   have hlc : (lease (withNewClient s) s.nClients).liveCount = s.liveCount + 1 := liveCount_lease _ _
-  obtain ⟨b, nd, io, ex, lo, co, ft, nl, dc, rq, lf, dn, rd⟩ := h
+  obtain ⟨b, nd, io, ex, lo, co, ft, nl, dc, rq, lf, dn, rd, dw⟩ := h
   refine { books := ?_, idleNodup := nd, idleOk := ?_, excl := ?_, liveOk := ?_, connOk := ?_,
-           flagTruth := ?_, noLeak := ?_, dirtyClosed := ?_, req := ?_, liveFresh := ?_, deadOnce := ?_, resetDirty := ?_ }
+           flagTruth := ?_, noLeak := ?_, dirtyClosed := ?_, req := ?_, liveFresh := ?_, deadOnce := ?_, resetDirty := ?_, deadWhy := ?_ }
   · rw [hlc]; simp [lease, withNewClient]; omega
   · simp only [lease, withNewClient]; grind
   · simp only [lease, withNewClient]; grind
@@ -209,12 +210,13 @@ theorem inv_lease_new (s : State) (h : Inv s) : Inv (lease (withNewClient s) s.n
   · simp only [lease, withNewClient]; grind [Stream.live]
   · simp only [lease, withNewClient]; grind [Stream.live]
   · simp only [lease, withNewClient]; grind
+  · simp only [lease, withNewClient]; grind [Stream.live]
 
 /-- T2: the last idle client is leased -/
 theorem inv_lease_pop (s : State) (h : Inv s) (rest : List Nat) (c : Nat) (hidle : s.idle = rest ++ [c]) :
     Inv (lease { s with idle := rest } c) := by
   have hlc : (lease { s with idle := rest } c).liveCount = s.liveCount + 1 := liveCount_lease _ _
-  obtain ⟨b, nd, io, ex, lo, co, ft, nl, dc, rq, lf, dn, rd⟩ := h
+  obtain ⟨b, nd, io, ex, lo, co, ft, nl, dc, rq, lf, dn, rd, dw⟩ := h
   have hcm : c ∈ s.idle := by rw [hidle]; simp
   have hcr : c ∉ rest := by
     intro hm; rw [hidle] at nd; exact (List.nodup_append.mp nd).2.2 c hm c (by simp) rfl
@@ -223,7 +225,7 @@ theorem inv_lease_pop (s : State) (h : Inv s) (rest : List Nat) (c : Nat) (hidle
   have hlen : s.idle.length = rest.length + 1 := by rw [hidle]; simp
   have ⟨hc1, hc2, hc3⟩ := io c hcm
   refine { books := ?_, idleNodup := hnd, idleOk := ?_, excl := ?_, liveOk := ?_, connOk := ?_,
-           flagTruth := ?_, noLeak := ?_, dirtyClosed := ?_, req := ?_, liveFresh := ?_, deadOnce := ?_, resetDirty := ?_ }
+           flagTruth := ?_, noLeak := ?_, dirtyClosed := ?_, req := ?_, liveFresh := ?_, deadOnce := ?_, resetDirty := ?_, deadWhy := ?_ }
   · rw [hlc]; simp [lease]; omega
   · simp only [lease]; grind
   · simp only [lease]; grind
@@ -242,6 +244,7 @@ theorem inv_lease_pop (s : State) (h : Inv s) (rest : List Nat) (c : Nat) (hidle
   · simp only [lease]; grind [Stream.live]
   · simp only [lease]; grind [Stream.live]
   · simp only [lease]; grind
+  · simp only [lease]; grind [Stream.live]
 
 /-! ### canonical end states of a finished stream / a closed connection -/
 def tFinishPut (s : State) (i c : Nat) (st' : Stream) : State :=
@@ -266,16 +269,16 @@ theorem liveCount_kill (s s' : State) (i : Nat) (hn : s'.nStreams = s.nStreams) 
 /-- T3: live stream `i` on client `c` completes, the client goes back to the idle list -/
 theorem inv_finish_put (s : State) (h : Inv s) (i c : Nat) (st' : Stream) (hi : i < s.nStreams)
     (hl : (s.stream i).live = true) (hc : (s.stream i).conn = c)
-    (h1 : st'.conn = c) (h2 : st'.live = false) (h3 : st'.destroys = 1) (h4 : st'.recv ≤ 1) (h5 : st'.resets = []) :
+    (h1 : st'.conn = c) (h2 : st'.live = false) (h3 : st'.destroys = 1) (h4 : st'.recv = 1) (h5 : st'.resets = []) :
     Inv (tFinishPut s i c st') := by
   have hlc : (tFinishPut s i c st').liveCount + 1 = s.liveCount :=
     liveCount_kill s _ i rfl hi hl (by simp [tFinishPut, h2]) (fun k hk => by simp [tFinishPut, hk])
-  obtain ⟨b, nd, io, ex, lo, co, ft, nl, dc, rq, lf, dn, rd⟩ := h
+  obtain ⟨b, nd, io, ex, lo, co, ft, nl, dc, rq, lf, dn, rd, dw⟩ := h
   have hcn : c < s.nClients := hc ▸ co i hi
   have hcl : (s.client c).closed = false := hc ▸ lo i hi hl
   have hci : c ∉ s.idle := fun hm => (io c hm).2.2 i hi hl hc
   refine { books := ?_, idleNodup := ?_, idleOk := ?_, excl := ?_, liveOk := ?_, connOk := ?_,
-           flagTruth := ?_, noLeak := ?_, dirtyClosed := ?_, req := ?_, liveFresh := ?_, deadOnce := ?_, resetDirty := ?_ }
+           flagTruth := ?_, noLeak := ?_, dirtyClosed := ?_, req := ?_, liveFresh := ?_, deadOnce := ?_, resetDirty := ?_, deadWhy := ?_ }
   · simp only [tFinishPut, List.length_append, List.length_singleton] at hlc ⊢; omega
   · simp only [tFinishPut]; rw [List.nodup_append]; refine ⟨nd, by simp, ?_⟩; intro a ha b' hb; simp at hb; subst hb; intro e; subst e; exact hci ha
   · simp only [tFinishPut]; grind
@@ -297,17 +300,18 @@ theorem inv_finish_put (s : State) (h : Inv s) (i c : Nat) (st' : Stream) (hi : 
   · simp only [tFinishPut]; grind
   · simp only [tFinishPut]; grind
   · simp only [tFinishPut]; grind
+  · simp only [tFinishPut]; grind
 
 /-- T4: live stream `i` on client `c` ends and the connection is (or was just) closed -/
 theorem inv_finish_close (s : State) (h : Inv s) (i c : Nat) (st' : Stream) (cl' : Client) (hi : i < s.nStreams)
     (hl : (s.stream i).live = true) (hc : (s.stream i).conn = c)
     (h1 : st'.conn = c) (h2 : st'.live = false) (h3 : st'.destroys = 1) (h4 : st'.recv ≤ 1)
     (h5 : st'.resets.length ≤ 1) (h6 : st'.recv = 1 → st'.resets = []) (h7 : st'.resets ≠ [] → cl'.dirty = true)
-    (h8 : cl'.closed = true) (h9 : cl'.netOpen = false) :
+    (h8 : cl'.closed = true) (h9 : cl'.netOpen = false) (h10 : st'.recv = 1 ∨ st'.resets ≠ []) :
     Inv (tFinishClose s i c st' cl') := by
   have hlc : (tFinishClose s i c st' cl').liveCount + 1 = s.liveCount :=
     liveCount_kill s _ i rfl hi hl (by simp [tFinishClose, h2]) (fun k hk => by simp [tFinishClose, hk])
-  obtain ⟨b, nd, io, ex, lo, co, ft, nl, dc, rq, lf, dn, rd⟩ := h
+  obtain ⟨b, nd, io, ex, lo, co, ft, nl, dc, rq, lf, dn, rd, dw⟩ := h
   have hcn : c < s.nClients := hc ▸ co i hi
   have hcl : (s.client c).closed = false := hc ▸ lo i hi hl
   have hci : c ∉ s.idle := fun hm => (io c hm).2.2 i hi hl hc
@@ -317,7 +321,7 @@ theorem inv_finish_close (s : State) (h : Inv s) (i c : Nat) (st' : Stream) (cl'
     · rfl
     · have := dc c hcn hd; rw [hcl] at this; exact absurd this (by decide)
   refine { books := ?_, idleNodup := ?_, idleOk := ?_, excl := ?_, liveOk := ?_, connOk := ?_,
-           flagTruth := ?_, noLeak := ?_, dirtyClosed := ?_, req := ?_, liveFresh := ?_, deadOnce := ?_, resetDirty := ?_ }
+           flagTruth := ?_, noLeak := ?_, dirtyClosed := ?_, req := ?_, liveFresh := ?_, deadOnce := ?_, resetDirty := ?_, deadWhy := ?_ }
   · simp only [tFinishClose, hidle] at hlc ⊢; omega
   · simp only [tFinishClose, hidle]; exact nd
   · simp only [tFinishClose, hidle]; grind
@@ -348,11 +352,12 @@ theorem inv_finish_close (s : State) (h : Inv s) (i c : Nat) (st' : Stream) (cl'
       by_cases hkc : (s.stream k).conn = c
       · rw [hkc] at hd; rw [hnd] at hd; exact absurd hd (by decide)
       · simp [hkc, hd]
+  · simp only [tFinishClose]; grind
 
 /-- T5: idle client `c` loses its connection -/
 theorem inv_close_idle (s : State) (h : Inv s) (c : Nat) (cl' : Client) (hm : c ∈ s.idle)
     (h8 : cl'.closed = true) (h9 : cl'.netOpen = false) : Inv (tCloseIdle s c cl') := by
-  obtain ⟨b, nd, io, ex, lo, co, ft, nl, dc, rq, lf, dn, rd⟩ := h
+  obtain ⟨b, nd, io, ex, lo, co, ft, nl, dc, rq, lf, dn, rd, dw⟩ := h
   have ⟨hcn, hcl, hns⟩ := io c hm
   have hlen := length_removeIdle s.kind s.idle c hm
   have hmem := mem_removeIdle s.kind s.idle nd c
@@ -361,7 +366,7 @@ theorem inv_close_idle (s : State) (h : Inv s) (c : Nat) (cl' : Client) (hm : c 
     · rfl
     · have := dc c hcn hd; rw [hcl] at this; exact absurd this (by decide)
   refine { books := ?_, idleNodup := nodup_removeIdle _ _ nd _, idleOk := ?_, excl := ex, liveOk := ?_, connOk := co,
-           flagTruth := ?_, noLeak := ?_, dirtyClosed := ?_, req := rq, liveFresh := lf, deadOnce := dn, resetDirty := ?_ }
+           flagTruth := ?_, noLeak := ?_, dirtyClosed := ?_, req := rq, liveFresh := lf, deadOnce := dn, resetDirty := ?_, deadWhy := dw }
   · show s.total - 1 = (s.liveCount : Int) + ((removeIdle s.kind s.idle c).length : Int); omega
   · simp only [tCloseIdle]; grind
   · simp only [tCloseIdle]; grind
@@ -386,9 +391,9 @@ theorem inv_close_idle (s : State) (h : Inv s) (c : Nat) (cl' : Client) (hm : c 
 theorem inv_flags (s : State) (h : Inv s) (g : Nat → Client)
     (hg : ∀ k, (g k).closed = (s.client k).closed ∧ (g k).netOpen = (s.client k).netOpen ∧ (g k).dirty = (s.client k).dirty) :
     Inv { s with client := g } := by
-  obtain ⟨b, nd, io, ex, lo, co, ft, nl, dc, rq, lf, dn, rd⟩ := h
+  obtain ⟨b, nd, io, ex, lo, co, ft, nl, dc, rq, lf, dn, rd, dw⟩ := h
   refine { books := b, idleNodup := nd, idleOk := ?_, excl := ex, liveOk := ?_, connOk := co,
-           flagTruth := ?_, noLeak := ?_, dirtyClosed := ?_, req := rq, liveFresh := lf, deadOnce := dn, resetDirty := ?_ }
+           flagTruth := ?_, noLeak := ?_, dirtyClosed := ?_, req := rq, liveFresh := lf, deadOnce := dn, resetDirty := ?_, deadWhy := dw }
   · intro c hc; have := io c hc; simp only [(hg c).1]; exact this
   · intro i hi hl; simp only [(hg _).1]; exact lo i hi hl
   · intro c hc; simp only [(hg c).1, (hg c).2.1]; exact ft c hc
@@ -399,17 +404,17 @@ theorem inv_flags (s : State) (h : Inv s) (g : Nat → Client)
 /-- T7: another pool of the cluster takes / returns a slot of the shared requests breaker -/
 theorem inv_ext_inc (s : State) (h : Inv s) :
     Inv { s with reqCur := resIncrease s.maxReq s.reqCur, ext := s.ext + 1 } := by
-  obtain ⟨b, nd, io, ex, lo, co, ft, nl, dc, rq, lf, dn, rd⟩ := h
+  obtain ⟨b, nd, io, ex, lo, co, ft, nl, dc, rq, lf, dn, rd, dw⟩ := h
   refine { books := b, idleNodup := nd, idleOk := io, excl := ex, liveOk := lo, connOk := co,
-           flagTruth := ft, noLeak := nl, dirtyClosed := dc, req := ?_, liveFresh := lf, deadOnce := dn, resetDirty := rd }
+           flagTruth := ft, noLeak := nl, dirtyClosed := dc, req := ?_, liveFresh := lf, deadOnce := dn, resetDirty := rd, deadWhy := dw }
   show resIncrease s.maxReq s.reqCur = if s.maxReq = 0 then 0 else ((s.ext + 1 : Nat) : Int) + (s.liveCount : Int)
   rw [resIncrease_eq, rq]; split <;> simp <;> omega
 
 theorem inv_ext_dec (s : State) (h : Inv s) (hpos : s.ext > 0) :
     Inv { s with reqCur := resDecrease s.maxReq s.reqCur, ext := s.ext - 1 } := by
-  obtain ⟨b, nd, io, ex, lo, co, ft, nl, dc, rq, lf, dn, rd⟩ := h
+  obtain ⟨b, nd, io, ex, lo, co, ft, nl, dc, rq, lf, dn, rd, dw⟩ := h
   refine { books := b, idleNodup := nd, idleOk := io, excl := ex, liveOk := lo, connOk := co,
-           flagTruth := ft, noLeak := nl, dirtyClosed := dc, req := ?_, liveFresh := lf, deadOnce := dn, resetDirty := rd }
+           flagTruth := ft, noLeak := nl, dirtyClosed := dc, req := ?_, liveFresh := lf, deadOnce := dn, resetDirty := rd, deadWhy := dw }
   show resDecrease s.maxReq s.reqCur = if s.maxReq = 0 then 0 else ((s.ext - 1 : Nat) : Int) + (s.liveCount : Int)
   rw [resDecrease_eq, rq]
   by_cases hm : s.maxReq = 0
